@@ -70,6 +70,8 @@ def run(seed=0, n=40):
         k = rng.randint(0, 6)
         record("numpy.zeros", _close(list(_items(model("numpy.zeros", k))), np.zeros(k)), f"zeros({k})")
         record("numpy.ones", _close(list(_items(model("numpy.ones", k))), np.ones(k)), f"ones({k})")
+        record("numpy.fft.fftshift", _close(list(model("numpy.fft.fftshift", seq)), np.fft.fftshift(fl)), f"fftshift({seq})")
+        record("numpy.fft.ifftshift", _close(list(model("numpy.fft.ifftshift", seq)), np.fft.ifftshift(fl)), f"ifftshift({seq})")
         i1, i2 = rng.randint(-9, 9), rng.choice([1, 2, 3, 5, -2, -3])
         from .values import v_floordiv, v_mod
 
